@@ -40,31 +40,21 @@ def created_classes(fx):
     if not cands:
         raise AnalysisBroken('CreateDataArray not found')
     f = cands[0]
-    sw = [n for n in f.walk() if n['k'] == 'SwitchStmt']
-    if not sw:
-        raise AnalysisBroken('CreateDataArray has no switch')
+    tabs = A.dispatch_tables(f)        # a switch, or the same dispatch written as an if/else-if chain
+    if not tabs:
+        raise AnalysisBroken('CreateDataArray has no dispatch over type codes')
     table = {}
-    pending = []
-    for c in sw[0].role('body')['ch']:
-        x = c
-        while x is not None and x['k'] in ('CaseStmt', 'DefaultStmt'):
-            pending.append(x.get('cv') if x['k'] == 'CaseStmt' else 'default')
-            x = x['ch'][-1] if x['ch'] else None
-        if x is None:
-            continue
-        news = [y for y in x.walk() if y['k'] == 'CXXNewExpr']
-        pools = [y for y in x.walk() if y.is_call() and (y.get('q') or '').endswith('ObjectPool::ObtainObject')]
+    for (vals, stmts) in max(tabs, key=lambda t: len(t['cases']))['cases']:
+        news = [y for st in stmts for y in st.walk() if y['k'] == 'CXXNewExpr']
+        pools = [y for st in stmts for y in st.walk() if y.is_call() and (y.get('q') or '').endswith('ObjectPool::ObtainObject')]
         cls = None
         if news:
             cls = f.types[news[0]['at']]
         elif pools:
             cls = pools[0].type().replace('*', '').strip()
         if cls:
-            news = [1]
-            for cv in pending:
+            for cv in (vals if vals != 'default' else ['default']):
                 table[cv] = cls
-        if x['k'] == 'BreakStmt' or any(y['k'] == 'BreakStmt' for y in x.walk()) or news:
-            pending = []
     if len(table) < 10:
         raise AnalysisBroken('CreateDataArray: only %d cases read' % len(table))
     return f, table
@@ -294,21 +284,13 @@ def checksum_agree_rule(res, fx, tcs, table):
         raise AnalysisBroken('CHECKSUM-AGREE: MessageField::SingleCalculateChecksum not found')
     sc = sc[0]
     single = {}
-    sw = [n for n in sc.walk() if n['k'] == 'SwitchStmt']
-    if not sw:
-        raise AnalysisBroken('CHECKSUM-AGREE: no switch in SingleCalculateChecksum')
-    pending = []
-    for c in sw[0].role('body')['ch']:
-        x = c
-        while x is not None and x['k'] in ('CaseStmt', 'DefaultStmt'):
-            pending.append(x.get('cv') if x['k'] == 'CaseStmt' else 'default')
-            x = x['ch'][-1] if x['ch'] else None
-        if x is None:
-            continue
-        adds = [y for y in x.walk() if y['k'] == 'CompoundAssignOperator' and y.get('op') == '+=']
-        for cv in pending:
+    tabs = A.dispatch_tables(sc)
+    if not tabs:
+        raise AnalysisBroken('CHECKSUM-AGREE: no dispatch over type codes in SingleCalculateChecksum')
+    for (vals, stmts) in max(tabs, key=lambda t: len(t['cases']))['cases']:
+        adds = [y for st in stmts for y in st.walk() if y['k'] == 'CompoundAssignOperator' and y.get('op') == '+=']
+        for cv in (vals if vals != 'default' else ['default']):
             single[cv] = conv_chain(adds[0]['ch'][1]) if adds else ('none',)
-        pending = []
     n = 0
     for name, tc in sorted(tcs.items()):
         if name in ('B_TAG_TYPE', 'B_POINTER_TYPE', 'B_MESSAGE_TYPE'):
